@@ -1,10 +1,10 @@
 SPECIFICATION MCSpec
 CONSTANTS
-  Nodes = {"a","b","c"}
-  Voters0 = {"a","b","c"}
+  Nodes = {"a", "b", "c"}
+  Voters0 = {"a", "b", "c"}
   Observers = {}
   Nil = "Nil"
-  BatchBytes = 50
+  BatchBytes = 100
   UseBatch = TRUE
   WaitLeader = TRUE
   QueueSize = 10
@@ -13,20 +13,20 @@ CONSTANTS
   InitConnected = TRUE
   Membership = FALSE
   CompactMin = 1000000
-  SnapChunk = 65536
-  Cmds = {}
+  SnapChunk = 60
+  Cmds = {"c1"}
   CmdSize = 40
-  MaxTerm = 2
+  MaxTerm = 1
   MaxLog = 4
-  MaxChan = 2
+  MaxChan = 4
   MaxFaults = 0
-  Electors = {"a","b","c"}
-  SubmitAt = {}
-  Advs0 = {"z","j"}
+  Electors = {"a"}
+  SubmitAt = {"a"}
+  Advs0 = {"h", "j"}
   SnapSize = 100
-  Compactors = {}
-  FaultPairs = {{"a","b"},{"a","c"},{"b","c"},{"a","d"},{"b","d"},{"c","d"},{"a","e"},{"b","e"},{"c","e"},{"d","e"}}
-  Isolated0 = {}
+  Compactors = {"a"}
+  FaultPairs = {{"a","c"}}
+  Isolated0 = {"c"}
   MembCids = {}
   MembTargets = {}
   Spares = {}
@@ -43,6 +43,9 @@ INVARIANT OneVotePerTerm
 INVARIANT CommittedStable
 INVARIANT LogMatching
 INVARIANT NoEscape
+INVARIANT SnapshotAtPosition
+INVARIANT TransferIntegrity
+INVARIANT HeldSnapshotConsistent
 PROPERTY P_MonotoneIndices
 PROPERTY P_HistAppendOnly
 PROPERTY P_CommitIsQuorumBacked
